@@ -187,7 +187,7 @@ Fixpoint gen_true (fe : fenv) (W : world) (ck : kind) (p : pred) {struct p} : gp
       GFun (GLoop body body)
   | PHasKey key =>
       GFun (GRound 2 (fun j => match j with O => random_dicts | _ => random_anys end) 0 []
-                   (fun vs => match vs with [VColl KDict ks; _] => [VColl KDict (ks ++ [cv ck key])] | _ => [] end) GStop)
+                   (fun vs => [VColl KDict (items_of (hd VNone vs) ++ [cv ck key])]) GStop)
   | _ => GFun GStop           (* unsupported here: the implementation raises ValueError or is not modelled (see header) *)
   end.
 
